@@ -54,7 +54,25 @@ prop('C07', engine='storesim', profiles={'quick': [('c07', 2400)], 'thorough': [
           'flags, has_data and run invocations vs model; non-trivial = at least one forced task actually re-ran')
 
 
+prop('C13', engine='storesim', profiles={'quick': [('c13', 2400)], 'thorough': [('c13', 60000)]}, level='exploration',
+     nontrivial=lambda r: r['stats'].get('mem_shared_multichain', 0) > 0 or r['stats'].get('forced_runs', 0) > 0,
+     rule='MultiChains over 2-4 generated roots (overlapping pipelines, differing parameters/contexts/namespaces), requests and MultiChain.force '
+          'interleaved across members, standalone chains alongside; member == standalone model (tasks, keys, values), object identity iff same '
+          'computation, values shared in memory, flags in every member; non-trivial = a value was served from memory of a shared object or a forced task re-ran')
+ASSUME_PMAP = ['f is gate-controlled: a call completes only when the controller releases it; in-flight sets follow the documented semantics '
+               '(FIFO start, `threads` workers, chunk after chunk); real ThreadPoolExecutor and asyncio loop, tqdm stubbed']
+prop('C17', engine='pmapsim', profiles={'quick': [('pmap', 6000)], 'thorough': [('pmap', 200000)]}, level='exploration',
+     nontrivial=lambda r: r['stats'].get('out_of_order', 0) > 0,
+     assumptions_override=ASSUME_PMAP,
+     rule='seeded (n, threads, chunksize, sort, bar, input kind, raising element, output kind) x seeded completion order of the in-flight worker calls; '
+          'result vs sequential map, exactly-once, exception propagation, per-chunk permutation, chunked vs slicing; '
+          'non-trivial = workers completed in an order different from input order; distinct = scenario digest')
+
+
 def get_engine(name):
+    if name == 'pmapsim':
+        from tcsim.pmapsim import PmapEngine
+        return PmapEngine()
     if name == 'storesim':
         from tcsim.storesim.engine import StoreEngine
         return StoreEngine()
@@ -226,7 +244,7 @@ def generic_runner(pid, tier, seed, a, cfg):
     }
     coverage.update(cfg.get('extra_coverage', lambda recs: {})(ran))
     if not a.no_evidence:
-        core.write_evidence(pid, tier, seed, cfg['level'], coverage, wall, len(violations), ASSUME_STORE + cfg.get('assumptions', []))
+        core.write_evidence(pid, tier, seed, cfg['level'], coverage, wall, len(violations), cfg.get('assumptions_override') or (ASSUME_STORE + cfg.get('assumptions', [])))
     print(f'[{pid}] runs={len(ran)} nontrivial={len(nontrivial)} wall={wall:.1f}s runs/h={coverage["runs_per_hour"]} fired={fired_tot} '
           f'aborted_by={aborted} harness_errors={len(harness)} skipped={len(skipped)}')
     for ln in known_lines:
